@@ -667,6 +667,158 @@ theorem primOK_computeSkipReason : PrimOK .computeSkipReason := by
     simp only [List.append_nil] at h2
     simp [Prim.dec, Prim.decComputeSkipReason, h, h2, bind, Outcome.bind, pure]
 
+/-- the chunk a wallet payload list serialises to: the modes (8 bits each) and the message cells -/
+def payloadChunk : Val → List Bool × List Cell
+  | .cons (.cons (.cons (.cell c) .nil) (.cons (.int mode) .nil)) rest =>
+    (natToBits 8 mode.toNat ++ (payloadChunk rest).1, c :: (payloadChunk rest).2)
+  | _ => ([], [])
+
+theorem payload_enc (v : Val) : ∀ (b b' : Builder), Prim.payloadDom v = true →
+    Prim.encPayloadItems v b = .ok b' → b' = b.app (payloadChunk v).1 (payloadChunk v).2 := by
+  fun_induction Prim.payloadDom v with
+  | case1 =>
+    intro b b' _ he
+    simp only [Prim.encPayloadItems] at he; cases he
+    simp [payloadChunk]
+  | case2 c mode rest ih =>
+    intro b b' hd he
+    simp only [Bool.and_eq_true, decide_eq_true_eq] at hd
+    obtain ⟨⟨⟨_, hm0⟩, hm1⟩, hrest⟩ := hd
+    simp only [Prim.encPayloadItems, Builder.writeUint] at he
+    obtain ⟨b1, hb1, he2⟩ := bind_ok_inv he
+    obtain ⟨b2, hb2, he3⟩ := bind_ok_inv he2
+    have e1 := Builder.writeBits_ok hb1
+    rw [natToBits_mod64 8 _ (by omega)] at e1
+    have e2 := Builder.addRef_ok hb2
+    have e3 := ih b2 b' hrest he3
+    rw [e3, e2, e1, Builder.app_app, Builder.app_app]
+    simp [payloadChunk]
+  | case3 v h1 h2 =>
+    intro b b' hd _
+    cases hd
+
+theorem payloadChunk_refs_len (v : Val) : (payloadChunk v).2.length ≤ Prim.valLen v := by
+  fun_induction payloadChunk v with
+  | case1 c mode rest ih => simp [Prim.valLen]; omega
+  | case2 v h => simp
+
+theorem payload_dec (v : Val) : ∀ (fuel : Nat) (acc : List Val) (s : Slice), Prim.payloadDom v = true →
+    s.refs = [] → (payloadChunk v).2.length < fuel →
+    Prim.decPayloadAux fuel (s.prepend (payloadChunk v).1 (payloadChunk v).2) acc =
+      .ok (acc.reverse.foldr Val.cons v, s) := by
+  fun_induction Prim.payloadDom v with
+  | case1 =>
+    intro fuel acc s _ hs hf
+    cases fuel with
+    | zero => simp [payloadChunk] at hf
+    | succ fuel =>
+      simp only [payloadChunk, Slice.prepend_nil, Prim.decPayloadAux, hs]
+      congr 2
+      induction acc.reverse with
+      | nil => rfl
+      | cons a t ih => simp [Val.list, ih]
+  | case2 c mode rest ih =>
+    intro fuel acc s hd hs hf
+    simp only [Bool.and_eq_true, decide_eq_true_eq] at hd
+    obtain ⟨⟨⟨_, hm0⟩, hm1⟩, hrest⟩ := hd
+    cases fuel with
+    | zero => simp at hf
+    | succ fuel =>
+      simp only [payloadChunk, List.length_cons] at hf
+      have hr : (s.prepend (payloadChunk (.cons (.cons (.cons (.cell c) .nil) (.cons (.int mode) .nil)) rest)).1
+          (payloadChunk (.cons (.cons (.cons (.cell c) .nil) (.cons (.int mode) .nil)) rest)).2).refs
+          = c :: ((payloadChunk rest).2 ++ s.refs) := by simp [payloadChunk, Slice.prepend]
+      have h1 := Slice.readUint_prepend s 8 mode.toNat (payloadChunk rest).1 (payloadChunk rest).2 (by omega)
+      have hm : mode.toNat % 2 ^ 8 = mode.toNat := Nat.mod_eq_of_lt (by omega)
+      have hslice : ({ (s.prepend (payloadChunk (.cons (.cons (.cons (.cell c) .nil) (.cons (.int mode) .nil)) rest)).1
+          (payloadChunk (.cons (.cons (.cons (.cell c) .nil) (.cons (.int mode) .nil)) rest)).2) with
+            refs := (payloadChunk rest).2 ++ s.refs } : Slice)
+          = s.prepend (natToBits 8 mode.toNat ++ (payloadChunk rest).1) (payloadChunk rest).2 := by
+        simp [payloadChunk, Slice.prepend]
+      rw [Prim.decPayloadAux]
+      simp only [hr, hslice, h1, hm, bind, Outcome.bind]
+      rw [ih fuel _ s hrest hs (by omega)]
+      simp [Val.list, Val.some, Int.toNat_of_nonneg hm0]
+  | case3 v h1 h2 =>
+    intro fuel acc s hd
+    cases hd
+
+theorem primOK_payloadV1toV4 : PrimOK .payloadV1toV4 := by
+  intro v b b' _ hd he
+  have hd' : Prim.valLen v ≤ 4 ∧ Prim.payloadDom v = true := by
+    cases v <;> simpa [Prim.inDom] using hd
+  have he' : Prim.encPayloadV1toV4 v b = .ok b' := by
+    cases v <;> first | exact he | (simp [Prim.payloadDom] at hd')
+  simp only [Prim.encPayloadV1toV4, if_neg (by omega : ¬ Prim.valLen v > 4)] at he'
+  refine ⟨_, _, payload_enc v b b' hd'.2 he', ?_⟩
+  intro s _ hc
+  rcases hc with hng | ⟨h1, h2⟩
+  · simp [Prim.greedy] at hng
+  · refine ⟨s, ?_, fun _ => rfl⟩
+    have := payload_dec v ((s.prepend (payloadChunk v).1 (payloadChunk v).2).refs.length + 1) [] s hd'.2 h2
+      (by simp [Slice.prepend, h2])
+    simpa [Prim.dec, Prim.decPayloadV1toV4] using this
+
+
+theorem primOK_vmCellSlice : PrimOK .vmCellSlice := by
+  intro v b b' _ hd he
+  unfold Prim.inDom at hd
+  split at hd <;> try (cases hd; done)
+  all_goals try (rename_i hp; cases hp; done)
+  rename_i c a e x y _
+  simp only [Bool.and_eq_true, decide_eq_true_eq] at hd
+  obtain ⟨⟨⟨⟨hok, ha0⟩, hab⟩, hx0⟩, hxy⟩ := hd
+  simp only [Prim.enc, Prim.encVmCellSlice] at he
+  rw [if_neg (by omega), if_neg (by omega)] at he
+  split at he
+  · cases he
+  · split at he
+    · cases he
+    · rename_i hb1 hr1
+      obtain ⟨b1, h1, he2⟩ := bind_ok_inv he
+      obtain ⟨b2, h2, he3⟩ := bind_ok_inv he2
+      obtain ⟨b3, h3, he4⟩ := bind_ok_inv he3
+      obtain ⟨b4, h4, he5⟩ := bind_ok_inv he4
+      have hcb : Prim.cellBitSize c ≤ cellBits ∧ Prim.cellRefsSize c ≤ cellRefs := by
+        cases c; simp only [cellOk, Bool.and_eq_true, decide_eq_true_eq] at hok
+        exact ⟨hok.1.2, hok.2⟩
+      have he1023 : e.toNat < 2 ^ 10 := by have := hcb.1; simp only [cellBits] at this; omega
+      have ha1023 : a.toNat < 2 ^ 10 := by omega
+      have hy4 : y.toNat ≤ 4 := by have := hcb.2; simp only [cellRefs] at this; omega
+      have hx4 : x.toNat ≤ 4 := by omega
+      have e1 := Builder.addRef_ok h1
+      have e2 := Builder.writeBits_ok h2
+      have e3 := Builder.writeBits_ok h3
+      have hl4 : Builder.limBits 4 = 3 := by decide
+      simp only [Builder.writeLimUint, hl4, Builder.writeUint] at h4 he5
+      have e4 := Builder.writeBits_ok h4
+      have e5 := Builder.writeBits_ok he5
+      rw [natToBits_mod64 10 _ (by omega)] at e2 e3
+      rw [natToBits_mod64 3 _ (by omega)] at e4 e5
+      refine ⟨natToBits 10 a.toNat ++ (natToBits 10 e.toNat ++ (natToBits 3 x.toNat ++ natToBits 3 y.toNat)), [c], by
+        rw [e5, e4, e3, e2, e1, Builder.app_app, Builder.app_app, Builder.app_app, Builder.app_app]; simp,
+        RTs.toRT ?_ _⟩
+      intro s _
+      have r0 := Slice.nextRef_prepend s
+        (natToBits 10 a.toNat ++ (natToBits 10 e.toNat ++ (natToBits 3 x.toNat ++ natToBits 3 y.toNat))) c []
+      have r1 := Slice.readUint_prepend s 10 a.toNat (natToBits 10 e.toNat ++ (natToBits 3 x.toNat ++ natToBits 3 y.toNat)) []
+        (by omega)
+      have r2 := Slice.readUint_prepend s 10 e.toNat (natToBits 3 x.toNat ++ natToBits 3 y.toNat) [] (by omega)
+      have r3 := Slice.readUint_prepend s 3 x.toNat (natToBits 3 y.toNat) [] (by omega)
+      have r4 := Slice.readUint_prepend s 3 y.toNat [] [] (by omega)
+      simp only [List.append_nil] at r4
+      have m1 : a.toNat % 2 ^ 10 = a.toNat := Nat.mod_eq_of_lt ha1023
+      have m2 : e.toNat % 2 ^ 10 = e.toNat := Nat.mod_eq_of_lt he1023
+      have m3 : x.toNat % 2 ^ 3 = x.toNat := Nat.mod_eq_of_lt (by omega)
+      have m4 : y.toNat % 2 ^ 3 = y.toNat := Nat.mod_eq_of_lt (by omega)
+      simp only [Prim.dec, Prim.decVmCellSlice, r0, bind, Outcome.bind, r1, m1, r2, m2, Slice.readLimUint, hl4, r3, m3,
+        r4, m4, if_neg (by omega : ¬ a.toNat > e.toNat), if_neg (by omega : ¬ x.toNat > y.toNat), pure,
+        Slice.prepend_nil]
+      simp only [Int.toNat_of_nonneg (by omega : 0 ≤ e), Int.toNat_of_nonneg (by omega : 0 ≤ y),
+        Int.toNat_of_nonneg ha0, Int.toNat_of_nonneg hx0, Val.list, Val.some]
+      rw [if_neg (by omega), if_neg (by omega)]
+
+
 /-- every hand-written codec marked `proved` has its round-trip lemma -/
 theorem primOK_of_proved : ∀ p : Prim, p.proved = true → PrimOK p
   | .unary, _ => primOK_unary
@@ -685,8 +837,8 @@ theorem primOK_of_proved : ∀ p : Prim, p.proved = true → PrimOK p
   | .snake, h => by simp [Prim.proved] at h
   | .bytesSnake, h => by simp [Prim.proved] at h
   | .text, h => by simp [Prim.proved] at h
-  | .vmCellSlice, h => by simp [Prim.proved] at h
-  | .payloadV1toV4, h => by simp [Prim.proved] at h
+  | .vmCellSlice, _ => primOK_vmCellSlice
+  | .payloadV1toV4, _ => primOK_payloadV1toV4
   | .w5Actions, h => by simp [Prim.proved] at h
 
 
